@@ -54,12 +54,12 @@ def run(ctx):
     ctx.replay(rep, cases, label="R/JsonTextVar", args=("--tmpdir", ctx.tmp), timeout=ctx.pick(600, 3000))
     os.unlink(cases)
     # V: random trees through the real encoder/decoder, judged by TLC
-    files = ctx.record(rec, ctx.pick(8, 32), ctx.pick(260, 1500), "V/JsonTextEnc")
+    files = ctx.record(rec, ctx.pick(8, 24), ctx.pick(260, 1200), "V/JsonTextEnc")
     ctx.validate_traces("Trace_JsonTextEnc", "Trace_JsonTextEnc", files, label="V/JsonTextEnc", timeout=ctx.pick(600, 3000),
                         xss="512m", xmx="4g")
     if not ctx.quick:
         # documents of one to several MB through Json::write/read and Xdl::write/read (hundreds of chunk boundaries and flushes)
-        big = ctx.record(rec, 3, 1, "V/JsonTextEnc-huge", extra_args=("--mode", "1"))
+        big = ctx.record(rec, 2, 1, "V/JsonTextEnc-huge", extra_args=("--mode", "1"))
         ctx.validate_traces("Trace_JsonTextEnc", "Trace_JsonTextEnc", big, label="V/JsonTextEnc-huge", timeout=3000, xss="1g", xmx="8g")
     ctx.assumptions += [
         "exhaustive over the tables of spec/JsonTextVar.tla (%d trees); beyond them seeded random trees" % sum(seen.values()),
